@@ -2,10 +2,10 @@
 """Regenerate the seeded-changes table of DESIGN.md section 0.6 from /verif/seeded/*/meta.json."""
 import glob, json, os, re
 rows = ["| id | property | change (by an independent sub-agent) | needs, to manifest | confirmed (demo 0 -> 1, suite green) | registered quick check |", "|---|---|---|---|---|---|"]
-for d in sorted(glob.glob("/verif/seeded/*")):
+for d in sorted(glob.glob("/verif/seeded/C*-[A-Z]")):
     m = json.load(open(d + "/meta.json")); c = m["confirmation"]
     def cut(t, n):
-        t = " ".join(str(t).split()); return (t[: n - 1] + "...") if len(t) > n else t
+        t = " ".join(str(t).split()).replace("|", "/"); return (t[: n - 1] + "...") if len(t) > n else t
     tail = [l.strip() for l in c.get("check_tail", "").splitlines() if l.strip().startswith("C")]
     how = tail[0].split(":")[1] if tail else ""
     res = {1: "**caught**" + (f" (`{how}`)" if how else ""), 0: "MISSED", 2: "harness error", 124: "timeout"}.get(c.get("check_rc"), str(c.get("check_rc")))
